@@ -169,7 +169,7 @@ class Check:
         if not cfg.endswith(".cfg"):
             cfg = cfg + ".cfg"
         out = dump_to or os.path.join(work, "tlc.out")
-        cmd = ["java", "-XX:+UseParallelGC", "-Xss64m"]
+        cmd = ["java", "-XX:+UseParallelGC", "-Xss64m", "-Djava.io.tmpdir=" + self._tmpdir()]
         if jvm:
             cmd += jvm
         cmd += ["-cp", JAVA_CP, "tlc2.TLC", "-config", cfg, "-metadir", os.path.join(work, "meta"),
@@ -220,6 +220,11 @@ class Check:
             return ""
 
     # ---------------------------------------------------------------- trace validation
+    def _tmpdir(self):
+        d = os.path.join(self.scratch, "tmp")
+        os.makedirs(d, exist_ok=True)
+        return d
+
     def validate_traces(self, family, module, cfg, paths, parallel=8, timeout=900, tag="trace validation"):
         """Validate recorded traces (ndjson) against specs/<family>/<module>.tla, one TLC process per trace
         (the trace is dropped into the scratch copy as trace.ndjson).  Returns one dict per trace:
@@ -233,7 +238,7 @@ class Check:
             shutil.copytree(src, work)
             shutil.copy(path, os.path.join(work, "trace.ndjson"))
             out = os.path.join(work, "tlc.out")
-            cmd = ["java", "-XX:+UseParallelGC", "-Xss512m", "-Xmx3g", "-cp", JAVA_CP, "tlc2.TLC", "-config", cfg,
+            cmd = ["java", "-XX:+UseParallelGC", "-Xss512m", "-Xmx3g", "-Djava.io.tmpdir=" + self._tmpdir(), "-cp", JAVA_CP, "tlc2.TLC", "-config", cfg,
                    "-metadir", os.path.join(work, "meta"), "-workers", "1", module + ".tla"]
             t0 = time.time()
             to = False
@@ -298,6 +303,11 @@ class Check:
         e["VERIF_SEED"] = str(self.seed)
         e["VERIF_TIER"] = self.tier
         e["VERIF_SCRATCH"] = self.scratch
+        # whatever the code under test drops into the temporary directory (p2p node keys, WAL directories of its own
+        # helpers) lands in this check's scratch directory and is removed with it
+        tmpd = os.path.join(self.scratch, "tmp")
+        os.makedirs(tmpd, exist_ok=True)
+        e["TMPDIR"] = tmpd
         e["VERIF_REPO"] = REPO
         cmd = ["go", "test", "-tags", "verif", "-count=1", "-vet=off", "-run", "^" + run + "$",
                "-timeout", "%ds" % int(timeout), "./" + pkg + "/"]
